@@ -105,7 +105,8 @@ MustNotMatch(cfg, tx) ==
 
 ---------------------------------------------------------------------------
 (* TransitionEnd: the record.  prev = the previously created record of this   *)
-(* memory instance (m.db[len-1] / m.lastRec) or None.                         *)
+(* memory instance (m.db[len-1] / m.lastRec) or None: the first record a      *)
+(* process creates has no predecessor, also on a re-opened store (pf).        *)
 None == [none |-> TRUE]
 
 MkRec(cfg, tx, prev, id) ==
@@ -116,7 +117,8 @@ MkRec(cfg, tx, prev, id) ==
        dsum |-> sum - TSum(tx.tb), tdsum |-> TSum(mt) - TSum(mtb),
        rdsum |-> IF prev = None THEN 0 ELSE sum - prev.sum,
        mt |-> mt, mtd |-> TDiff(mt, mtb),
-       machTick |-> tx.machTick, mtype |-> tx.mtype, mi |-> tx.mi]
+       machTick |-> tx.machTick, mtype |-> tx.mtype, mi |-> tx.mi,
+       pf |-> (prev = None)]
 
 (* the fields the property speaks about ("tracked times equal the machine's   *)
 (* time after that transition") vs. the derived ones (conformance only)       *)
@@ -149,11 +151,19 @@ Act(cfg, e, s) == IsActive(e.mt[TIdx(cfg, s)])
 (*   A  the state is active and its tick moved in THIS transition (godoc)      *)
 (*   B  active, and not active in the previous stored record (history.go)      *)
 (*   C  active, and its tick differs from the previously created record (gorm) *)
+(*   C' as C, the previously created record OF THE SAME PROCESS (gorm keeps    *)
+(*      it in memory: the first record after a restart has no predecessor;     *)
+(*      the same as C on a store that was never re-opened)                     *)
 ActdA(cfg, e, s) == Act(cfg, e, s) /\ e.mtd[TIdx(cfg, s)] > 0
 ActdB(cfg, L, p, s) == Act(cfg, L[p], s) /\ (p = 1 \/ ~Act(cfg, L[p - 1], s))
 ActdC(cfg, made, e, s) ==
   /\ Act(cfg, e, s)
   /\ (e.id <= 1 \/ e.id > Len(made) + 1
+      \/ made[e.id - 1].mt[TIdx(cfg, s)] # e.mt[TIdx(cfg, s)])
+ProcFirst(made, e) == e.id <= 1 \/ (e.id <= Len(made) /\ made[e.id].pf)
+ActdP(cfg, made, e, s) ==
+  /\ Act(cfg, e, s)
+  /\ (ProcFirst(made, e) \/ e.id > Len(made) + 1
       \/ made[e.id - 1].mt[TIdx(cfg, s)] # e.mt[TIdx(cfg, s)])
 DeactA(cfg, e, s) == ~Act(cfg, e, s) /\ e.mtd[TIdx(cfg, s)] > 0
 DeactB(cfg, L, p, s) == ~Act(cfg, L[p], s) /\ (p = 1 \/ Act(cfg, L[p - 1], s))
@@ -161,6 +171,8 @@ DeactC(cfg, made, e, s) ==
   /\ ~Act(cfg, e, s)
   /\ e.id > 1 /\ e.id <= Len(made) + 1
   /\ made[e.id - 1].mt[TIdx(cfg, s)] # e.mt[TIdx(cfg, s)]
+
+DeactP(cfg, made, e, s) == DeactC(cfg, made, e, s) /\ ~ProcFirst(made, e)
 
 InRange(v, q) == q.lo <= v /\ v <= q.hi
 
@@ -184,8 +196,10 @@ CondIn(cfg, made, L, p, q) ==
   LET e == L[p] IN
   /\ All(q.act, LAMBDA s : Act(cfg, e, s))
   /\ All(q.inact, LAMBDA s : ~Act(cfg, e, s))
-  /\ All(q.actd, LAMBDA s : ActdA(cfg, e, s) /\ ActdB(cfg, L, p, s) /\ ActdC(cfg, made, e, s))
-  /\ All(q.deact, LAMBDA s : DeactA(cfg, e, s) /\ DeactB(cfg, L, p, s) /\ DeactC(cfg, made, e, s))
+  /\ All(q.actd, LAMBDA s : ActdA(cfg, e, s) /\ ActdB(cfg, L, p, s) /\ ActdC(cfg, made, e, s)
+                            /\ ActdP(cfg, made, e, s))
+  /\ All(q.deact, LAMBDA s : DeactA(cfg, e, s) /\ DeactB(cfg, L, p, s) /\ DeactC(cfg, made, e, s)
+                             /\ DeactP(cfg, made, e, s))
   /\ TimeOk(cfg, e, q)
 
 (* satisfies q under at least one reading                                      *)
@@ -193,8 +207,10 @@ CondMay(cfg, made, L, p, q) ==
   LET e == L[p] IN
   /\ All(q.act, LAMBDA s : Act(cfg, e, s))
   /\ All(q.inact, LAMBDA s : ~Act(cfg, e, s))
-  /\ All(q.actd, LAMBDA s : ActdA(cfg, e, s) \/ ActdB(cfg, L, p, s) \/ ActdC(cfg, made, e, s))
-  /\ All(q.deact, LAMBDA s : DeactA(cfg, e, s) \/ DeactB(cfg, L, p, s) \/ DeactC(cfg, made, e, s))
+  /\ All(q.actd, LAMBDA s : ActdA(cfg, e, s) \/ ActdB(cfg, L, p, s) \/ ActdC(cfg, made, e, s)
+                            \/ ActdP(cfg, made, e, s))
+  /\ All(q.deact, LAMBDA s : DeactA(cfg, e, s) \/ DeactB(cfg, L, p, s) \/ DeactC(cfg, made, e, s)
+                             \/ DeactP(cfg, made, e, s))
   /\ TimeOk(cfg, e, q)
 
 (* which condition kinds position p definitely fails                           *)
@@ -203,9 +219,11 @@ FailKinds(cfg, made, L, p, q) ==
   UNION {
     IF All(q.act, LAMBDA s : Act(cfg, e, s)) THEN {} ELSE {"Active"},
     IF All(q.inact, LAMBDA s : ~Act(cfg, e, s)) THEN {} ELSE {"Inactive"},
-    IF All(q.actd, LAMBDA s : ActdA(cfg, e, s) \/ ActdB(cfg, L, p, s) \/ ActdC(cfg, made, e, s))
+    IF All(q.actd, LAMBDA s : ActdA(cfg, e, s) \/ ActdB(cfg, L, p, s) \/ ActdC(cfg, made, e, s)
+                              \/ ActdP(cfg, made, e, s))
       THEN {} ELSE {"Activated"},
-    IF All(q.deact, LAMBDA s : DeactA(cfg, e, s) \/ DeactB(cfg, L, p, s) \/ DeactC(cfg, made, e, s))
+    IF All(q.deact, LAMBDA s : DeactA(cfg, e, s) \/ DeactB(cfg, L, p, s) \/ DeactC(cfg, made, e, s)
+                               \/ DeactP(cfg, made, e, s))
       THEN {} ELSE {"Deactivated"},
     IF TimeOk(cfg, e, q) THEN {} ELSE {q.tk}}
 
@@ -251,6 +269,24 @@ BoundedExact(max, nmade, ids) ==
   /\ Len(ids) = MinOf(max, nmade)
   /\ \A i \in 1..Len(ids) : ids[i] = nmade - Len(ids) + i
 BoundedLoose(max, batch, ids) == Len(ids) <= PBound(max, batch)
+(* ... across process restarts.  The rotation threshold counts the records     *)
+(* THIS process has written (Saved / SavedGc start from 0 in a re-opened        *)
+(* memory), so the weaker reading for a store that was re-opened is: until the  *)
+(* process has rotated once it adds at most PBound records to what it found     *)
+(* (`opened` records), from its first rotation on the absolute bound holds.     *)
+(* On a store that was never re-opened (opened = 0) this is BoundedLoose.       *)
+BoundedLooseR(max, batch, ids, opened, rotated) ==
+  Len(ids) <= PBound(max, batch) + (IF rotated THEN 0 ELSE opened)
+(* A rotation that ran to completion rotates out EVERYTHING but the newest     *)
+(* MaxRecords - whichever process wrote the old records.  `nextBefore` = the   *)
+(* NextId at a moment before the rotation started, when no write was in        *)
+(* flight.  The rotation knew a newest id >= nextBefore and left nothing       *)
+(* older than the MaxRecords below it; a write-behind batch that lands AFTER   *)
+(* the rotation (both are forked by the same TransitionEnd) brings records     *)
+(* that were still queued at that moment, i.e. the `batch - 1` ids below       *)
+(* nextBefore at most (the weaker reading, as the 2*batch of PBound).          *)
+RotationTrims(max, batch, nextBefore, ids) ==
+  \A i \in 1..Len(ids) : ids[i] > nextBefore - MaxOf(max, batch)
 (* rotation removes OLD records only: the newest min(Max, n) written survive   *)
 KeepsNewest(max, nwritten, ids) ==
   \A k \in (MaxOf(1, nwritten - max + 1))..nwritten : SHas(ids, k)
@@ -286,8 +322,9 @@ ImplCond(b, cfg, made, L, V, p, q) ==
   /\ IF b = "gorm"
      THEN /\ All(q.act, LAMBDA s : Act(cfg, e, s))
           /\ All(q.inact, LAMBDA s : ~Act(cfg, e, s))
-          /\ All(q.actd, LAMBDA s : ActdC(cfg, made, e, s))
-          /\ All(q.deact, LAMBDA s : DeactC(cfg, made, e, s))
+          \* m.lastRec: the previous record THIS memory object created
+          /\ All(q.actd, LAMBDA s : ActdP(cfg, made, e, s))
+          /\ All(q.deact, LAMBDA s : DeactP(cfg, made, e, s))
      ELSE IF FilterNoop THEN TRUE
      ELSE /\ All(q.act, LAMBDA s : Act(cfg, e, s))
           /\ All(q.inact, LAMBDA s : ~Act(cfg, e, s))
